@@ -239,6 +239,14 @@ def run(ctx):
         # the name recorded: the key of the entry, or the key argument of a plain `map.insert(name, action)`
         key = ent[2][1] if ent is not None else (e[2][1] if len(e[2]) == 3 else None)
         same_name = bool(cross) and key is not None and norm(cross[-1]['b']) == norm(key)
+        if cross:
+            # ... of the *same player*: the table is picked by the node's player number, never by a fixed position
+            fixed = sorted(q.tags(cross[-1]['a']))
+            by_player = q.find_sub(cross[-1]['a'], lambda s_: s_[0] == 'call' and short(s_[1]) in ('ind', 'ind_mut')) is not None or \
+                q.find_sub(cross[-1]['a'], lambda s_: s_[0] == 'index' and s_[2][0] != 'const') is not None
+            if fixed or by_player:
+                ctx.verdict(not fixed and by_player, rule, '%s:cross-table:own-player:%s' % (rule, top), 'the multi-action table consulted for a single-action node is the one of the node\'s own player', f.where(bi),
+                            'table selected by the player number: %s; fixed positions: %s' % (by_player, fixed), breaks='an infoset of player two can be single-action here and multi-action there: no named strategy can be imported for such a game')
         ctx.verdict(bool(cross) and same_name, rule, '%s:cross-table:%s' % (rule, top), 'a single-action infoset is recorded only if its name is absent from the same player\'s multi-action table', f.where(bi),
                     'absent-from-multi-table test on the same name dominates: %s' % (bool(cross) and same_name), breaks='one infoset name with one action here and several there')
     # re-met single-action infoset: same action
@@ -351,6 +359,49 @@ def run(ctx):
                             g.where(bj), 'written value %s' % facts.show(r)[:70], breaks='a forced move between two infosets of a player erases what the player remembers: valid games are rejected (ImperfectRecall) or best responses are evaluated in the wrong order')
     if n_w == 0:
         ctx.anchor_lost(rule, 'init_recurse: store to the recall witness')
+
+    # ---- R7c the finished infoset keeps the *infoset* half of that pair as its link to the previous infoset
+    rule = 'C11.prev-infoset-link'
+    pos_infoset = None
+    for g in [f] + closures:
+        for bj, st, pl, rhs in q.stores(g):
+            r = strip_refs(rhs)
+            if not (r[0] == 'agg' and r[1].endswith('Option::Some') and r[2]):
+                continue
+            tup = strip_refs(r[2][0])
+            if not (tup[0] == 'agg' and tup[1] == 'tuple' and len(tup[2]) == 2) or 'prev_infosets' not in facts.show(pl):
+                continue
+            # the action half is the one that changes from child to child (the enumeration counter / a closure parameter)
+            def per_child_(x, g=g, bj=bj):
+                if g.is_closure and q.find_sub(x, lambda s_: s_[0] == 'param' and s_[1] >= 2) is not None:
+                    return True
+                lp = g.loop_of(bj)
+                return lp is not None and q.find_sub(x, lambda s_: s_[0] == 'downcast' and s_[2] == 'Some' and q.is_call(s_[1], 'next') and s_[1][3][1] in lp[1]) is not None
+            flags = [per_child_(x) for x in tup[2]]
+            if flags.count(True) == 1:
+                pos_infoset = flags.index(False)
+    nf = lib.one('PlayerInfosetData::<I, A>::new')
+    link = None
+    if nf is not None:
+        ctx.touch(nf)
+        for bi, st, fields in q.struct_sites(nf, 'PlayerInfosetData'):
+            v = fields.get('prev_infoset')
+            if v is None:
+                continue
+            v = strip_refs(v)
+            if q.is_call(v, 'map') and len(v[2]) == 2:
+                cf, _ = q.closure_of(lib, v[2][1])
+                if cf is not None:
+                    ctx.touch(cf)
+                    rr = strip_refs(q.ret_expr(cf))
+                    if rr[0] == 'field' and str(rr[2]).isdigit() and strip_refs(rr[1])[0] == 'param':
+                        link = (int(rr[2]), nf.where(bi))
+    if pos_infoset is None or link is None:
+        ctx.anchor_lost(rule, 'the (infoset, action) pair written in init_recurse / the half kept by PlayerInfosetData::new', 'pair position %s, kept half %s' % (pos_infoset, link and link[0]))
+    else:
+        ctx.verdict(link[0] == pos_infoset, rule, rule, 'the link to a player\'s previous infoset stored in the finished game is the infoset index of the recall witness (not the action index)', link[1],
+                    'witness pair holds the infoset index at position %d; PlayerInfosetData::new keeps position %d' % (pos_infoset, link[0]),
+                    breaks='best responses are resolved in the wrong order (or panic): wrong regrets on games where a player decides twice')
 
     # ---- R8 terminal payoff
     rule = 'C11.terminal-finite'
